@@ -34,10 +34,9 @@ func refResolve(aliases, paths []string, r string) string {
 	return r
 }
 
-func vfTable(n int) (*imports, []string, []string) {
+func vfTable(n, ln int) (*imports, []string, []string) {
 	im := New()
 	var as, ps []string
-	ln := vfBound("c14.len", 3, 5)
 	for i := 0; i < n; i++ {
 		a, p := vfStr("alias", ln), vfStr("path", ln)
 		vfAssume(vfInRe(a, docAlias) && vfInRe(p, docPath))
@@ -64,7 +63,7 @@ func vfPathOf(im *imports, local string) (string, int) {
 // VF_C14_resolve: a reference resolves to exactly the package the alias table
 // denotes, whole segments only, whatever the iteration order of the table.
 func VF_C14_resolve() {
-	im, as, ps := vfTable(vfBound("c14.aliases", 2, 2))
+	im, as, ps := vfTable(vfBound("c14.aliases", 2, 2), vfBound("c14.len", 3, 5))
 	r := vfStr("ref", vfBound("c14.len", 3, 5))
 	vfAssume(vfInRe(r, docPath))
 	want := refResolve(as, ps, r)
@@ -81,8 +80,8 @@ func VF_C14_resolve() {
 // VF_C14_names: equal packages share one local name and one import entry,
 // different packages never share a local name.
 func VF_C14_names() {
-	im, as, ps := vfTable(1)
-	ln := vfBound("c14.len", 3, 5)
+	ln := vfBound("c14.names", 3, 4)
+	im, as, ps := vfTable(1, ln)
 	r1, r2 := vfStr("r1", ln), vfStr("r2", ln)
 	vfAssume(vfInRe(r1, docPath) && vfInRe(r2, docPath))
 	w1, w2 := refResolve(as, ps, r1), refResolve(as, ps, r2)
@@ -120,7 +119,7 @@ func VF_C14_register() {
 // the same package, and a third use keeps the names handed out before.
 func VF_C14_distinct() {
 	im := New()
-	ln := vfBound("c14.long", 6, 9)
+	ln := vfBound("c14.long", 6, 7)
 	r1, r2 := vfStr("r1", ln), vfStr("r2", ln)
 	vfAssume(vfInRe(r1, docPath) && vfInRe(r2, docPath))
 	n1, n2 := im.Alias(r1), im.Alias(r2)
